@@ -77,7 +77,7 @@ func hexList(x [][]byte) []string {
 func TestCheck(t *testing.T) {
 	r := vf.Start(t, "C32", vf.Exploration)
 	defer r.Finish()
-	r.SetRule("(a) session id: all ordered pairs of a seeded pool of key-derived peer ids (Ed25519): id(a,b) must equal id(b,a), and distinct unordered pairs must give distinct ids (map over everything explored; sampled collision-freeness). (a2) symmetry id(a,b) == id(b,a) and determinism also over all ordered pairs of ARBITRARY peer-id strings (lengths 0..300, multihash-shaped ids of other key lengths, every prefix of an id, extensions, ids sharing a prefix, small-alphabet strings, mixed with key-derived ids); distinctness is not demanded there (arbitrary strings can collide across the concatenation boundary), coincidences are counted only. (b) FindMatchingHashes: PRNG pairs of SORTED lists of 0..40 hashes drawn from a per-case alphabet of <= 12 hashes (forces duplicates and shared elements; alphabets of 32-byte hashes, and of mixed-length hashes incl. prefixes of each other); result must equal the reference multiset intersection (count = min of counts, sorted); after the call every byte of both inputs is overwritten and the result must be unchanged (no aliasing). Non-trivial = session pair with a != b, or list pair with at least one shared element; distinct = distinct inputs")
+	r.SetRule("(a) session id: all ordered pairs of a seeded pool of key-derived peer ids (Ed25519): id(a,b) must equal id(b,a), and distinct unordered pairs must give distinct ids (map over everything explored; sampled collision-freeness). (a2) symmetry id(a,b) == id(b,a) and determinism also over all ordered pairs of ARBITRARY peer-id strings (lengths 0..300, multihash-shaped ids of other key lengths, every prefix of an id, extensions, ids sharing a prefix, small-alphabet strings, mixed with key-derived ids); distinctness is not demanded there (arbitrary strings can collide across the concatenation boundary), coincidences are counted only. (b) FindMatchingHashes: PRNG pairs of SORTED lists of 0..40 hashes drawn from a per-case alphabet of <= 12 hashes (forces duplicates and shared elements; alphabets of 32-byte hashes, and of mixed-length hashes incl. prefixes of each other); result must equal the reference multiset intersection (count = min of counts, sorted); after the call every byte of both inputs is overwritten and the result must be unchanged (no aliasing). (c) aliasing / history: PRNG sequences of ComputeSessionID / ComputeProtocolHash / ComputeProtocolHashes / FindMatchingHashes calls over a small universe (9 peer ids, 4 protocol ids, 5 contexts, 6 hashes; the same pair again, the same pair in swapped order, another pair in between); after each call the result is compared with the reference (documented BLAKE3 formulas computed by the harness, reference intersection), then every returned slice is either overwritten (bit flip, wipe, fill, reuse as append buffer, spare capacity) or held with a private copy (held results must not change through later calls), and the slices passed in are overwritten too (result must not follow, inputs must not follow an overwritten result). Non-trivial = session pair with a != b, or list pair with at least one shared element; distinct = distinct inputs")
 
 	// ---- (a) session ids
 	rng := r.Rand("c32-session")
@@ -351,4 +351,7 @@ func TestCheck(t *testing.T) {
 	r.Count("merge_cases_with_shared_elements", shared)
 	r.Count("merge_cases_with_duplicate_matches", dupCases)
 	r.Count("merge_cases_with_an_empty_side", emptyCases)
+
+	// ---- (c) aliasing / history (alias_test.go)
+	aliasPhase(r, ids)
 }
